@@ -294,6 +294,58 @@ def assert_constants(tree):
         raise ExtractError("fiber status enum changed")
 
 
+
+# ---------------------------------------------------------------------------------------------- asm -> janet_verify
+def asm_returns(tree):
+    """every `return` of janet_asm1 (asm.c): (status is JANET_ASSEMBLE_OK, the returned def passed `janet_verify` on the
+    way: test with a no-return error branch, nothing but the whitelisted statements between the test and the return)."""
+    src = strip_comments(read(tree, "src/core/asm.c"))
+    # keep the non-BSD arm of `#if defined(JANET_BSD) || defined(JANET_APPLE) … #else … #endif` (setjmp vs _setjmp)
+    src = re.sub(r"#if\s+defined\(JANET_BSD\)\s*\|\|\s*defined\(JANET_APPLE\)[^\n]*\n.*?#else[^\n]*\n(.*?)#endif[^\n]*\n", r"\1", src, flags=re.S)
+    body = func_body(src, "janet_asm1")
+    if re.search(r"\bgoto\b", body):
+        raise ExtractError("janet_asm1 uses goto: exit paths not understood")
+    # the error helpers never return
+    if not re.search(r"a->errmessage\s*=\s*m\s*;\s*janet_asm_longjmp\s*\(\s*a\s*\)\s*;\s*\}\s*$", func_body(src, "janet_asm_errorv")):
+        raise ExtractError("janet_asm_errorv no longer ends in janet_asm_longjmp")
+    lj = func_body(src, "janet_asm_longjmp")
+    if not re.search(r"\blongjmp\s*\(\s*a->on_error\s*,\s*1\s*\)\s*;", lj):
+        raise ExtractError("janet_asm_longjmp no longer calls longjmp")
+    rets = [m for m in re.finditer(r"\breturn\b\s*([^;]*);", body)]
+    out = []
+    for m in rets:
+        if m.group(1).strip() != "result":
+            raise ExtractError("janet_asm1: return of %r not understood" % m.group(1))
+        before = body[:m.start()]
+        st = list(re.finditer(r"result\.status\s*=\s*(\w+)\s*;", before))
+        if not st:
+            raise ExtractError("janet_asm1: return without a status assignment")
+        ok = st[-1].group(1) == "JANET_ASSEMBLE_OK"
+        verified = False
+        if ok:
+            v = re.search(r"int\s+verify_status\s*=\s*janet_verify\s*\(\s*def\s*\)\s*;\s*if\s*\(\s*verify_status\s*\)\s*\{\s*janet_asm_errorv\s*\([^;]*\)\s*;\s*\}", before)
+            if v:
+                tail = re.sub(r"\s+", " ", before[v.end():]).strip()
+                verified = tail == "janet_def_addflags(def); janet_asm_deinit(&a); result.error = NULL; result.funcdef = def; result.status = JANET_ASSEMBLE_OK;"
+        else:
+            if not re.search(r"result\.funcdef\s*=\s*NULL\s*;", before[-300:]):
+                raise ExtractError("janet_asm1: error return does not clear result.funcdef")
+        out.append((ok, verified))
+    # janet_def_addflags only toggles the HAS* presence flags (none of them is read by janet_verify)
+    cs = strip_comments(read(tree, "src/core/compile.c"))
+    af = func_body(cs, "janet_def_addflags")
+    flags = set(re.findall(r"JANET_FUNCDEF_FLAG_(\w+)", af))
+    if not flags <= {"HASNAME", "HASSOURCE", "HASDEFS", "HASENVS", "HASSOURCEMAP", "HASCLOBITSET", "HASSYMBOLMAP"}:
+        raise ExtractError("janet_def_addflags touches flags %s" % sorted(flags))
+    if re.search(r"def->(?!flags\b|name\b|source\b|defs\b|environments\b|sourcemap\b|closure_bitset\b|symbolmap\b)\w+", af) or \
+            len(re.findall(r"def->\w+\s*(?:\|=|&=|=)[^=]", af)) != 2:
+        raise ExtractError("janet_def_addflags writes something else than def->flags")
+    # the only caller in core that hands an assembled def to the VM: cfun_asm -> janet_asm -> janet_asm1
+    if not re.search(r"return\s+janet_asm1\s*\(\s*NULL\s*,\s*source\s*,\s*flags\s*\)\s*;", func_body(src, "janet_asm")):
+        raise ExtractError("janet_asm is no longer a plain call of janet_asm1")
+    return out
+
+
 def extract(tree):
     assert_constants(tree)
     from . import bytecode as gen_bytecode
@@ -312,7 +364,7 @@ def extract(tree):
     mm = strip_comments(read(tree, "src/core/marsh.c"))
     if not re.search(r"#ifdef\s+JANET_THREADS\s+void\s*\*p\s*=\s*janet_abstract_threaded", func_body(mm, "janet_unmarshal_abstract_threaded")):
         raise ExtractError("janet_unmarshal_abstract_threaded changed shape")
-    return {"threads": threads, "sites": extract_sites(tree), "abstracts": extract_abstracts(tree), "pegSizeChecked": peg_size_checked(tree), "jopCall": jop_call}
+    return {"asmReturns": asm_returns(tree), "threads": threads, "sites": extract_sites(tree), "abstracts": extract_abstracts(tree), "pegSizeChecked": peg_size_checked(tree), "jopCall": jop_call}
 
 
 def render(tree):
@@ -335,6 +387,10 @@ def render(tree):
     L.append("abbrev pegSizeChecked : Bool := %s" % ("true" if x["pegSizeChecked"] else "false"))
     L.append("abbrev jopCall : Nat := %d" % x["jopCall"])
     L.append("abbrev threads : Bool := %s" % ("true" if x["threads"] else "false"))
+    L.append("")
+    L.append("/-- every `return` of janet_asm1 (asm.c): (status is JANET_ASSEMBLE_OK, `janet_verify(def)` was tested on the way with a")
+    L.append("    no-return error branch and only flag bookkeeping follows) -/")
+    L.append("abbrev asmReturns : List (Bool × Bool) := [" + ", ".join("(%s, %s)" % (str(a).lower(), str(b).lower()) for a, b in x["asmReturns"]) + "]")
     L.append("")
     L.append("end JanetModel.Gen.UnmarshSites")
     return "\n".join(L) + "\n"
